@@ -118,13 +118,23 @@ Values of token trees are scalars or comma lists of scalars (the right side of `
 class Abs where
   fn : String → List Val → Val
   castF : String → Val → Val
+  /-- the backend's `/` (integer or real division depending on the operands; `Val` has no
+      non-integer numbers, so it stays abstract) -/
+  div : Val → Val → Val
 
 /-- `COALESCE(v₁, …)`: the first value that is not NULL -/
 def coalesceVal (args : List Val) : Val := (args.find? (fun v => v != Val.null)).getD .null
 
-/-- `coalesce` is interpreted, every other function is abstract -/
+/-- MySQL's `concat(v₁, …, vₙ)` -/
+def concatAllVal : List Val → Val
+  | [] => .null
+  | v :: vs => vs.foldl (evalArith .concat_op) v
+
+/-- `coalesce` and `concat` are interpreted, every other function is abstract -/
 def fnVal [Abs] (name : String) (args : List Val) : Val :=
-  if name = "coalesce" then coalesceVal args else Abs.fn name args
+  if name = "coalesce" then coalesceVal args
+  else if name = "concat" then concatAllVal args
+  else Abs.fn name args
 
 /-- searched CASE over the flattened operand list `[c₁, r₁, c₂, r₂, …, (else)]` -/
 def caseSearchedVal : List Val → Val
@@ -190,6 +200,8 @@ def stdInf [Abs] (s : Sym) (a b : SV) : SV :=
   | .minus => .s (evalArith .sub a.scalar b.scalar)
   | .star => .s (evalArith .mul a.scalar b.scalar)
   | .percent => .s (evalArith .mod a.scalar b.scalar)
+  | .slash => .s (Abs.div a.scalar b.scalar)
+  | .concat => .s (evalArith .concat_op a.scalar b.scalar)
   | _ => .s .null
 
 open SaVerif.Pratt in
